@@ -8,7 +8,7 @@ use crate::obs::{guarded, observe, Caught, Obs};
 use crate::plan::{Cfg, Id, PLabel, Step};
 use crate::rng::H64;
 use crate::stats::Stats;
-use crate::view::{InstView, LinkKind, Origin, View};
+use crate::view::{InstView, LinkKind, LogOp, Origin, View};
 use sodg::{Hex, Sodg};
 use std::cell::RefCell;
 use std::collections::BTreeSet;
@@ -99,7 +99,7 @@ impl<const N: usize> Exec<N> {
             cfg.eintr_every,
         )));
         sodg::verif::fs::install(Some(disk.clone()));
-        sodg::verif::collections::set_hash_seed(cfg.hash_seed);
+        sodg::verif::collections::set_hash_seed(cfg.hash_seed ^ cfg.hash_xor);
         let view = View::new(cfg);
         let n = view.insts.len();
         Self {
@@ -111,6 +111,113 @@ impl<const N: usize> Exec<N> {
             record: None,
             recent: [0; 2],
         }
+    }
+
+    /// An executor for counterfactual replays: it does not touch the thread's disk or hash seed.
+    pub fn nested(cfg: Cfg) -> Self {
+        let disk = Rc::new(RefCell::new(SimDisk::new(0, 0, 0)));
+        let view = View::new(cfg);
+        let n = view.insts.len();
+        Self {
+            view,
+            gs: (0..n).map(|_| None).collect(),
+            disk,
+            stats: Stats::default(),
+            trace: H64::default(),
+            record: None,
+            recent: [0; 2],
+        }
+    }
+
+    /// Replay a flattened history (basic operations only) on one fresh graph and report
+    /// the first clause that fails there, if any.
+    pub(crate) fn flat_replay(&self, log: &[LogOp], failing: &Op, skip_present_adds: bool) -> Option<Failure> {
+        let mut ex: Exec<N> = Exec::nested(self.view.cfg.clone());
+        ex.view.labels_seen = self.view.labels_seen.clone();
+        let cap = self.view.cfg.cap;
+        let g = guarded(|| Sodg::<N>::empty(cap)).ok()?;
+        let (mc, mn) = (self.view.cfg.contract_cap(), self.view.cfg.contract_n());
+        ex.new_inst(0, g, RefGraph::new(mc, mn), Origin::Fresh, 0).ok()?;
+        let all = log.iter().map(|l| (&l.op, l.add_present)).chain(std::iter::once((failing, false)));
+        for (op, present_add) in all {
+            if skip_present_adds && present_add {
+                continue;
+            }
+            let inst = ex.view.insts[0].as_ref().unwrap();
+            let m = &inst.m;
+            let ok = match op {
+                Op::Add(v) => m.can_add(*v),
+                Op::Bind(a, b, l) => m.can_bind(*a, *b, l),
+                Op::Put(v, _) => m.can_put(*v),
+                Op::Data(v) => m.can_data(*v),
+                Op::NextId => {
+                    let pos = m.returned.iter().next_back().map_or(0, |x| x + 1).max(inst.next_v);
+                    m.has_absent_at_or_above(pos)
+                }
+            };
+            if !ok {
+                continue;
+            }
+            if let Err(f) = ex.run_op(0, op) {
+                return Some(f);
+            }
+        }
+        None
+    }
+
+    /// Whose fault is a divergence seen on instance `i`? A clause about the basic operations
+    /// (C02, C03, C04, C06) is theirs only if the same flattened history also fails on a graph
+    /// that never went through load(), clone() or merge(); otherwise it belongs to the crossing.
+    pub(crate) fn attribute(&mut self, i: usize, op: &Op, mut f: Failure) -> Failure {
+        let Some(inst) = self.view.insts[i].as_ref() else { return f };
+        let basic = f.owners.iter().any(|o| matches!(*o, "C02" | "C03" | "C04" | "C06"));
+        if !basic {
+            return f;
+        }
+        let crossed = inst.crossed_load || inst.crossed_clone || inst.merged;
+        let mut log = inst.oplog.clone();
+        // run_op has already logged the failing op when the failure came after the model step
+        if matches!(log.last(), Some(l) if format!("{:?}", l.op) == format!("{op:?}")) && f.clause != "panic.in-contract-call" {
+            log.pop();
+        }
+        let readd = inst.readd_seen || log.iter().any(|l| l.add_present);
+        let (cl, cc, mg) = (inst.crossed_load, inst.crossed_clone, inst.merged);
+        if crossed {
+            self.stats.bump("attribution.flat_replays");
+            match self.flat_replay(&log, op, false) {
+                Some(f2) => {
+                    f.message = format!("{} [also fails without load/clone/merge: {} — {}]", f.message, f2.clause, f2.message);
+                    f.clause = f2.clause;
+                    f.owners = f2.owners;
+                }
+                None => {
+                    f.message = format!("{} [the same calls on a graph that never went through load/clone/merge do not fail]", f.message);
+                    f.owners = match (cl, cc, mg) {
+                        (true, false, false) => &["C08"],
+                        (false, true, false) => &["C10"],
+                        (false, false, true) => &["C11"],
+                        (true, true, false) => &["C08", "C10"],
+                        (true, false, true) => &["C08", "C11"],
+                        (false, true, true) => &["C10", "C11"],
+                        _ => &["C08", "C10", "C11"],
+                    };
+                    f.clause = "crossing.diverges-in-continuation";
+                    return f;
+                }
+            }
+        }
+        // C04: "add(v) on a present id changes nothing … nor the moment it will be collected":
+        // the divergence is add()'s fault if it vanishes once the adds on present vertices are left out
+        if readd && !f.owners.contains(&"C04") && self.flat_replay(&log, op, false).is_some() && self.flat_replay(&log, op, true).is_none() {
+            self.stats.bump("attribution.add_on_present_blamed");
+            f.owners = match f.owners {
+                x if x == clauses::ALIVE => &["C02", "C06", "C04"],
+                x if x == clauses::C03 => &["C03", "C04"],
+                x if x == clauses::PANIC_GC => &["C02", "C06", "C07", "C04"],
+                _ => &["C02", "C03", "C06", "C07", "C04"],
+            };
+        }
+        f
     }
 
     pub fn finish(&mut self) {
@@ -155,6 +262,9 @@ impl<const N: usize> Exec<N> {
             age: 0,
             readd_seen: false,
             merged: false,
+            crossed_load: false,
+            crossed_clone: false,
+            oplog: Vec::new(),
         });
         Ok(())
     }
@@ -333,6 +443,10 @@ impl<const N: usize> Exec<N> {
         }
         // 4. the model takes the step
         let mut ret = ret;
+        inst.oplog.push(LogOp {
+            op: op.clone(),
+            add_present: matches!(op, Op::Add(v) if inst.m.is_present(*v)),
+        });
         let m = &mut inst.m;
         match op {
             Op::Add(v) => {
@@ -561,7 +675,10 @@ impl<const N: usize> Exec<N> {
 
     /// Apply one of the five basic ops to `i` and mirror it on its followers.
     pub(crate) fn op_with_followers(&mut self, i: usize, op: &Op) -> Result<OpRet, Failure> {
-        let ret = self.run_op(i, op)?;
+        let ret = match self.run_op(i, op) {
+            Ok(r) => r,
+            Err(e) => return Err(self.attribute(i, op, e)),
+        };
         let followers = self.view.followers(i);
         let mut touched = vec![i];
         for (f, kind) in followers {
